@@ -64,6 +64,65 @@ def Exclusive (s : State) : Prop :=
   ∀ (i j : Nat) (ti tj : Thread) (l : Nat), i ≠ j → s[i]? = some ti → s[j]? = some tj →
     l ∈ ti.held → l ∉ tj.held
 
+/-! ### Reader/writer locks
+
+The key-value root locks are reader/writer locks (`std::sync::RwLock`, `flock` shared /
+exclusive): scoped operations take them in read mode, store-wide operations in write mode.
+`RW` gives the real blocking rules – a write request waits for any other holder, a read
+request waits for a holder in write mode or, with writer preference, behind a writer that is
+itself waiting for a holder – and `Props/C18.lean` shows that a thread blocked by these rules
+is blocked in the mutex formulation above (`rw_blocked_erase`), so the deadlock theorem
+carries over (`rw_ranked_no_deadlock`). -/
+namespace RW
+
+inductive Mode where
+  | r
+  | w
+deriving DecidableEq, Repr
+
+inductive Act where
+  | acq (m : Mode) (l : Nat)
+  | rel (l : Nat)
+  | step
+deriving DecidableEq, Repr
+
+structure Thread where
+  prog : List Act
+  held : List (Nat × Mode)
+deriving DecidableEq, Repr
+
+abbrev State := List Thread
+
+def eraseAct : Act → KM.Locks.Act
+  | .acq _ l => .acq l
+  | .rel l => .rel l
+  | .step => .step
+
+def erase (t : Thread) : KM.Locks.Thread := ⟨t.prog.map eraseAct, t.held.map (·.1)⟩
+
+def holds (s : State) (j : Nat) (l : Nat) : Prop :=
+  ∃ (t : Thread) (m : Mode), s[j]? = some t ∧ (l, m) ∈ t.held
+
+def holdsW (s : State) (j : Nat) (l : Nat) : Prop :=
+  ∃ t : Thread, s[j]? = some t ∧ (l, Mode.w) ∈ t.held
+
+def waitsW (s : State) (j : Nat) (l : Nat) : Prop :=
+  ∃ (t : Thread) (rest : List Act), s[j]? = some t ∧ t.prog = .acq .w l :: rest
+
+/-- The `i`-th thread cannot move under reader/writer semantics (with or without writer
+preference: the second disjunct is the queue behind a waiting writer). -/
+def blocked (s : State) (i : Nat) : Prop :=
+  ∃ (t : Thread) (m : Mode) (l : Nat) (rest : List Act),
+    s[i]? = some t ∧ t.prog = .acq m l :: rest ∧
+    ((∃ j, j ≠ i ∧ holds s j l ∧ (m = .w ∨ holdsW s j l)) ∨
+     (m = .r ∧ ∃ j, j ≠ i ∧ waitsW s j l ∧ ∃ k, k ≠ j ∧ holds s k l))
+
+def Deadlock (s : State) : Prop :=
+  (∃ i : Nat, ∃ t : Thread, s[i]? = some t ∧ t.prog ≠ []) ∧
+  ∀ i : Nat, ∀ t : Thread, s[i]? = some t → t.prog ≠ [] → blocked s i
+
+end RW
+
 /-! ### krill's ranking of its lock classes
 
 The lockdep recorder prints `kvr:<ns>` (root lock of a key-value namespace, read mode),
